@@ -36,11 +36,19 @@ class Binder:
         self.value_var = None
 
     def names(self):
-        return [x for x in (self.var, self.pos, self.elem) if x]
+        return [x for x in (self.var, self.pos, self.elem) if x] + list(getattr(self, 'elems', []))
+
+    def src_of(self, name):
+        """the list the name is an element of (iter / enum element, zip component)"""
+        if self.kind == 'zip':
+            return self.srcs[self.elems.index(name)] if name in self.elems else None
+        return self.src if name == self.elem else None
 
     def __repr__(self):
         if self.kind == 'range':
             return f'{self.var} in [{self.lo}, {self.hi}]'
+        if self.kind == 'zip':
+            return f'{",".join(self.elems)} over zip({", ".join(norm(x) for x in self.srcs)})'
         return f'{self.pos},{self.elem} over {norm(self.src) if self.src is not None else "?"}'
 
 
@@ -124,6 +132,13 @@ def binder_of(fn, target, it, use, pm, node):
         return Binder('enum', node, src=it.args[0], pos=target.elts[0].id, elem=target.elts[1].id, start=start)
     if isinstance(target, ast.Name):
         return Binder('iter', node, src=it, elem=target.id)
+    # for a, b in zip(A, B): a is the k-th element of A while b is the k-th element of B
+    if isinstance(target, ast.Tuple) and all(isinstance(x, ast.Name) for x in target.elts) and isinstance(it, ast.Call) and isinstance(it.func, ast.Name) \
+            and it.func.id == 'zip' and len(it.args) == len(target.elts) and not it.keywords and not any(isinstance(a, ast.Starred) for a in it.args):
+        b = Binder('zip', node)
+        b.elems = [x.id for x in target.elts]
+        b.srcs = list(it.args)
+        return b
     # for k, v in D.items()  (possibly sorted()/list()): k ranges over the keys of D
     inner = it
     while isinstance(inner, ast.Call) and isinstance(inner.func, ast.Name) and inner.func.id in ('sorted', 'list', 'tuple') and len(inner.args) == 1:
@@ -293,6 +308,8 @@ def _party_of(ctx, fn, ev, e, pm):
             return None
         if b.kind in ('enum', 'iter') and e.id == b.elem:
             return ('in', b.src, b)
+        if b.kind == 'zip' and e.id in b.elems:
+            return ('in', b.src_of(e.id), b)
         if b.kind == 'range':
             # a bare range variable is a party only if the range is [0, M-1]
             if b.lo == Lin(0) and b.hi == Lin.sym('M') - 1:
@@ -364,6 +381,8 @@ def _interval_guard(fn, ev, test, pm):
             lo = b + 1
         elif isinstance(op, ast.LtE):
             lo = b
+        elif isinstance(op, (ast.Gt, ast.GtE)) and len(terms) == 2:
+            hi = b - 1 if isinstance(op, ast.Gt) else b          # b > X % M  /  b >= X % M
         else:
             return None
     if i < len(terms) - 1:
@@ -478,7 +497,33 @@ def _atoms(ctx, fn, ev, pm):
                     atoms.append(('Abs', me, b2, n))
                     continue
             atoms.append(('Unknown', ('' if tv else 'not ') + _role_text(ev, t, peer_txt, peer_raw_txt)))
-    return atoms
+    return merge_offsets(atoms)
+
+
+def _leq(a, b):
+    """a <= b for linear forms over non-negative symbols, knowing T <= M - 1 (more parties than the threshold)"""
+    d = b - a
+    cm = d.coef('M')
+    d2 = d - Lin.sym('M') * cm + Lin.sym('T') * cm + Lin.sym('M_') * cm + cm      # M = T + 1 + M_ with M_ >= 0
+    return d2.nonneg()
+
+
+def merge_offsets(atoms):
+    """Several interval conditions on (R - S) mod M (two one-sided tests, a test plus an enumeration) hold together: intersect them."""
+    offs = [a for a in atoms if a[0] == 'Off']
+    if len(offs) < 2:
+        return atoms
+    lo, hi = offs[0][1], offs[0][2]
+    for a in offs[1:]:
+        if _leq(lo, a[1]):
+            lo = a[1]
+        elif not _leq(a[1], lo):
+            return atoms
+        if _leq(a[2], hi):
+            hi = a[2]
+        elif not _leq(hi, a[2]):
+            return atoms
+    return [a for a in atoms if a[0] != 'Off'] + [('Off', lo, hi)]
 
 
 def _role_text(ev, t, peer_txt, peer_raw_txt):
@@ -524,6 +569,31 @@ def membership_atoms(fn, role, e, me):
                 # NB: self is the *other* role here only if role is the peer; callers pass role of the member
                 return membership_atoms(fn, role, yes, me) + membership_atoms(fn, me, t.comparators[0], me)
         return [('Unknown', f'{role} in {cnorm(e)}')]
+    # [(E(k)) % M for k in range(a, b)]: a window of parties
+    if isinstance(e, ast.ListComp) and len(e.generators) == 1 and not e.generators[0].ifs and isinstance(e.generators[0].target, ast.Name):
+        g = e.generators[0]
+        it = g.iter
+        mp = _mod_parts(e.elt)
+        if isinstance(it, ast.Call) and isinstance(it.func, ast.Name) and it.func.id == 'range' and len(it.args) in (1, 2) and mp is not None \
+                and lin(fn, mp[1]) == Lin.sym('M'):
+            rlo = lin(fn, it.args[0]) if len(it.args) == 2 else Lin(0)
+            rhi = lin(fn, it.args[-1])
+            l = lin(fn, mp[0])
+            v = g.target.id
+            if rlo is not None and rhi is not None and l is not None and l.coef(v) in (1, -1) and not opaque_mentions(l, ['P', v]) \
+                    and not opaque_mentions(rlo, ['P']) and not opaque_mentions(rhi, ['P']):
+                rhi = rhi - 1
+                c = l.coef(v)
+                rest = l - Lin.sym(v) * c
+                lo, hi = (rest + rlo, rest + rhi) if c == 1 else (rest - rhi, rest - rlo)
+                if lo.coef('P') == 1 and hi.coef('P') == 1 and me != role:
+                    lo, hi = lo - Lin.sym('P'), hi - Lin.sym('P')       # role - me in [lo, hi]
+                    if role == 'S':                                      # S - R in [lo, hi]  <=>  R - S in [-hi, -lo]
+                        lo, hi = hi * -1, lo * -1
+                    return [('Off', lo, hi)]
+                if lo.coef('P') == 0 and hi.coef('P') == 0:
+                    base, n = _shift(Lin(0), lo, hi)
+                    return [('Abs', role, base, n)]
     # graph forms
     from .rules_ss import _arc_role
     for g in _graph_names(e):
@@ -575,6 +645,10 @@ def case_values(fn, name, use, pm):
     for st, v, how in reaching_definitions(fn.node, name, use, pm):
         if how != 'assign' or v is None:
             return None
+        if isinstance(v, ast.List) and not v.elts:
+            comp = sem._list_builder(fn, name, st, use, pm)      # `L = []` filled by an append loop: the comprehension it builds
+            if comp is not None:
+                v = comp
         ds.append((v, st, st))
     # `if C: name = A  else: name = B` (both the only definitions in the two branches of one `if`) is `name = A if C else B`
     # defined where that `if` stands
